@@ -30,6 +30,9 @@ for p in props:
         m["not_applicable"].append({"property_id": pid, "reason": "check not yet built in this tree (the technique applies; see DESIGN.md section 5/11)"})
         continue
     cfg = json.load(open(cfgp))
+    if cfg.get("hold"):
+        m["not_applicable"].append({"property_id": pid, "reason": "check built but temporarily not registered: " + cfg["hold"]})
+        continue
     thms = re.findall(r"^\s*Theorem\s+([A-Za-z0-9_']+)", open(propsv).read(), re.M)
     hyp = cfg.get("hypotheses", [])
     text = cfg.get("manifest_text") or (
